@@ -51,3 +51,27 @@ Theorem insignificant_whitespace :
 Proof. exact CssRoundTrip.insignificant_whitespace. Qed.
 Print Assumptions insignificant_whitespace.
 
+
+(* ---------- with optional white space also before the comma of a selector list and inside :nth-child() (after fix a437d2a) ---------- *)
+From H2T Require Import Base Tagged Wrap Css Dom CssParse Proofs.CssTotal Proofs.CssRoundTrip.
+Theorem parse_ruleset_rt2 :
+  forall (p : wsp2) (r : cssruleset) (rest : list chr),
+       wsp2_ok p ->
+       ruleset_ok r = true ->
+       parse_ruleset (print_ruleset_ws2 p r ++ rest) = POk r (skip_ws (w_end (w_base p) ++ rest)).
+Proof. exact CssRoundTrip.parse_ruleset_rt2. Qed.
+Print Assumptions parse_ruleset_rt2.
+
+Theorem parse_stylesheet_rt_ws2 :
+  forall prs : list (wsp2 * cssruleset),
+       sheet_ok2 prs -> parse_stylesheet (print_sheet_ws2 prs) = POk (map snd prs) [].
+Proof. exact CssRoundTrip.parse_stylesheet_rt_ws2. Qed.
+Print Assumptions parse_stylesheet_rt_ws2.
+
+Theorem insignificant_whitespace2 :
+  forall prs : list (wsp2 * cssruleset),
+       sheet_ok2 prs ->
+       parse_css_rules (print_sheet_ws2 prs) = parse_css_rules (concat (map print_ruleset (map snd prs))).
+Proof. exact CssRoundTrip.insignificant_whitespace2. Qed.
+Print Assumptions insignificant_whitespace2.
+
